@@ -78,6 +78,7 @@ def judge(case):
     exercised = set()
     counts = collections.Counter()
     import json as _json
+    qt_extents = qt_macro_extents(src_lines) if cfgd.get('use_options_overriding_for_qt_macros') == 'true' else {}
     for ln in sp.split(b'\n'):
         if not ln:
             continue
@@ -88,6 +89,9 @@ def judge(case):
         if rule == 'sp_num_before_tr_cmt' and tokrel.is_cmt(t2):
             rule = 'sp_before_tr_cmt'       # (the count option is logged last; the value handed on is sp_before_tr_cmt's, min_sp the count)
         if rule not in reg:
+            continue
+        if any(a_ <= c1 <= b_ for a_, b_ in qt_extents.get(l1, ())):
+            counts['inside_qt_macro'] += 1      # (documented: from the word SIGNAL / SLOT to the ')' of its argument list the override governs)
             continue
         v = cfgd.get(rule, reg[rule]['default'])
         vi = IARF[v]
@@ -256,6 +260,47 @@ def to_case(v):
     return family.Case(src.encode('utf-8'), lang, joint_cfg(random.Random(cseed)), {'kind': 'generated', 'layout_seed': lseed, 'cfg_seed': cseed})
 
 
+QT_OPTS = ['sp_inside_fparen', 'sp_inside_fparens', 'sp_paren_paren', 'sp_before_comma', 'sp_after_comma', 'sp_before_byref',
+           'sp_before_unnamed_byref', 'sp_after_type', 'sp_before_ptr_star', 'sp_before_unnamed_ptr_star', 'sp_inside_angle']
+
+
+def qt_macro_extents(src_lines):
+    """{line: [(first column of the word SIGNAL / SLOT, column of the ')' that closes its argument list)]} read from the input text
+    (1-based; a macro use is the word followed by '(' - single-line uses only, which is what qt_programs() writes)"""
+    out = {}
+    for i, ln in enumerate(src_lines):
+        t = ln.decode('latin-1')
+        for m in re.finditer(r'\b(SIGNAL|SLOT)\s*\(', t):
+            depth, j = 0, m.end() - 1
+            while j < len(t):
+                if t[j] == '(':
+                    depth += 1
+                elif t[j] == ')':
+                    depth -= 1
+                    if depth == 0:
+                        break
+                j += 1
+            out.setdefault(i + 1, []).append((m.start() + 1, j + 1))
+    return out
+
+
+def qt_programs():
+    heads = {'none': '', 'undef': '#undef SLOT\n', 'enum': 'enum Kind { PLAIN,SLOT,OTHER };\n', 'var': 'extern int SIGNAL;\n',
+             'undef2': '#undef SIGNAL\n#undef SLOT\n'}
+    conn = 'connect(x, SIGNAL(foo(int,int)), y, SLOT(bar(const QString &,int *)));'
+    bodies = {'flat': '   %s\n' % conn,
+              'nested': '   if (a)\n   {\n      %s\n   }\n' % conn,
+              'twice': '   %s\n   g(a,b);\n   {\n      %s\n   }\n' % (conn, conn),
+              'arg': '   h(1,connect(x, SIGNAL(foo(int)), y, SLOT(bar())),2);\n'}
+    tail = ('   apply( a,b );\n   v< int > w;\n}\nvoid later(int a,int b,char *p,T &r);\nvoid other( void );\n'
+            'int k((1),(2));\nstd::map< int,char > m;\n')
+    out = []
+    for hn, h in heads.items():
+        for bn, b in bodies.items():
+            out.append(('qt-%s-%s' % (hn, bn), h + 'void f(int a,int b)\n{\n   g(a,b);\n' + b + tail))
+    return out
+
+
 def main(ctx):
     quick = ctx.tier == 'quick'
     rng = random.Random(core.subseed(ctx.useed, 'c19'))
@@ -288,6 +333,17 @@ def main(ctx):
         cd = joint_cfg(random.Random(core.subseed(ctx.useed, 'joint', j)))
         for rel, lang in files:
             cases.append(family.Case(corpus.read(rel), lang, cd, {'kind': 'corpus-joint', 'file': rel, 'j': j}))
+    # (c) Qt programs: the words SIGNAL / SLOT switch eleven options to 'remove' between the macro name and the end of its argument
+    #     (use_options_overriding_for_qt_macros, default true); outside the macro the configured values govern - also after a bare
+    #     SIGNAL / SLOT word, between two macros, and behind a macro at another nesting level
+    nqt = 0
+    for name, src in qt_programs():
+        for o in QT_OPTS:
+            for v in ('force', 'add', 'remove'):
+                cases.append(family.Case(src.encode(), 'CPP', {o: v, 'use_options_overriding_for_qt_macros': 'true'}, {'kind': 'qt-shape', 'file': 'shape:' + name}))
+                nqt += 1
+        cases.append(family.Case(src.encode(), 'CPP', dict({o: 'force' for o in QT_OPTS}, use_options_overriding_for_qt_macros='true'), {'kind': 'qt-shape', 'file': 'shape:' + name}))
+    ctx.extra['qt_shape_cases'] = nqt
     raw = family.explore(ctx, judge, cases)
     raw += family.hyp_explore(ctx, judge, make_strategy, to_case, shards=16, examples=(60 if quick else 2000))
     family.triage(ctx, judge, raw, minimise_src=6000)
